@@ -162,7 +162,7 @@ def run(tier, seed):
         "evaluations": summary["Cases"],
         "distinct_nontrivial": summary["DistinctNontrivial"],
         "exhaustive": False,
-        "rule": "grammar-based generator of VALID configurations: 1-4 roles (inheritance, actions, cleanup, spotlight, the three signal kinds with the four time stamp groups, regexps holding #, ~p~ and backslashes), single and multi-actor casts (`x* play N roles`, plural role names, `with` environments, multi-line ones), multi-line commands, scenes (entails for an actor / every role, `?` marks, empty action lists, mood starts / ends), several merged storylines with + groups, . and _, literal edits, repeat from / count / always / time, tempo; an audience of up to 6 members whose clauses (watches signal / every role / variable, measures, only helps, audits, expects with the ten modalities, expects like, collects, computes over generated expressions with signal references, arrays and functions) are generated one at a time for a random member, i.e. interleaved across members subject to definition-before-use; interpretation clauses incl. the `ignore <result>` shorthand; title / author / attention.  Presentation: free white space, comments, blank lines, continuation lines between tokens, several sections per kind, empty sections, 0-3 parameters (-D only, in-file default only, both with -D winning, duplicate defaults) planted in substituted fields, includes (siblings, sub-directories, -I path, nested to depth 3, parametrised names).  10% of the cases plant one of the listed defect shapes (or a repaired one, as regression).  Every case is loaded as presented, as an inlined plain variant, again from its printed text, and again from the commented -p text; non-trivial = accepted with a cast, a non-empty compiled play and an audience; distinct by printed text.",
+        "rule": "grammar-based generator of VALID configurations: 1-4 roles (inheritance, actions, cleanup, spotlight, the three signal kinds with the four time stamp groups, regexps holding #, ~p~, backslashes and % sequences; every free-text field - commands, with-values, titles, authors, attention, labels, expression literals - also drawn with %s %d %% %!s %[1]d and a lone trailing %), single and multi-actor casts (`x* play N roles`, plural role names, `with` environments, multi-line ones), multi-line commands, scenes (entails for an actor / every role, `?` marks, empty action lists, mood starts / ends), several merged storylines with + groups, . and _, literal edits, repeat from / count / always / time, tempo; an audience of up to 6 members whose clauses (watches signal / every role / variable, measures, only helps, audits, expects with the ten modalities, expects like, collects, computes over generated expressions with signal references, arrays and functions) are generated one at a time for a random member, i.e. interleaved across members subject to definition-before-use; interpretation clauses incl. the `ignore <result>` shorthand; title / author / attention.  Presentation: free white space, comments, blank lines, continuation lines between tokens, several sections per kind, empty sections, 0-3 parameters (-D only, in-file default only, both with -D winning, duplicate defaults) planted in substituted fields, includes (siblings, sub-directories, -I path, nested to depth 3, parametrised names).  10% of the cases plant one of the listed defect shapes (or a repaired one, as regression).  Every case is loaded as presented, as an inlined plain variant, again from its printed text, and again from the commented -p text; non-trivial = accepted with a cast, a non-empty compiled play and an audience; distinct by printed text.",
         "samples": summary["Samples"][:3],
         "distribution": {k: summary[k] for k in (
             "Cases", "Accepted", "Rejected", "Risks", "Fails", "Kinds", "WithParams", "WithIncludes", "WithExtends",
